@@ -291,7 +291,46 @@ var keyPool = [][]byte{
 }
 var valPool = [][]byte{nil, {}, []byte("v"), []byte("tombstone"), {0xff}, []byte(strings.Repeat("x", 1500)), {0, 0, 0, 0, 0, 0, 0, 1}}
 
-func genKey(r *lib.Rand) []byte { return keyPool[r.Intn(len(keyPool))] }
+// longKey builds a valid UTF-8 key of 129..400 bytes from multi-byte runes such that a rune straddles
+// byte offset `cut` (128 or 256) with `lead` of its bytes before the cut: whoever truncates, slices or
+// re-buffers a key at a byte offset splits it
+func longKey(prefix string, runeStr string, cut, lead, total int) []byte {
+	rb := []byte(runeStr)
+	k := []byte(prefix)
+	// ASCII padding so that the rune sequence is aligned as requested
+	pad := (cut - lead - len(k)) % len(rb)
+	if pad < 0 {
+		pad += len(rb)
+	}
+	for i := 0; i < pad; i++ {
+		k = append(k, 'a')
+	}
+	for len(k) < total {
+		k = append(k, rb...)
+	}
+	return k
+}
+
+var multiByteRunes = []string{"é", "键", "😀"} // 2, 3 and 4 bytes
+
+func genLongKey(r *lib.Rand) []byte {
+	rs := multiByteRunes[r.Intn(len(multiByteRunes))]
+	cut := []int{128, 256}[r.Intn(2)]
+	lead := 1 + r.Intn(len(rs)-1)
+	total := cut + 1 + r.Intn(400-cut)
+	if total < cut+len(rs) {
+		total = cut + len(rs)
+	}
+	prefix := []string{"/registry/configmaps/", "/registry/events/", "/", "/registry/pods/ns/"}[r.Intn(4)]
+	return longKey(prefix, rs, cut, lead, total)
+}
+
+func genKey(r *lib.Rand) []byte {
+	if r.Chance(1, 6) {
+		return genLongKey(r)
+	}
+	return keyPool[r.Intn(len(keyPool))]
+}
 func genVal(r *lib.Rand) []byte { return valPool[r.Intn(len(valPool))] }
 
 // numeric pool shared by revisions and limits: boundaries of int64/uint64 (and their images under the
@@ -553,7 +592,9 @@ func genRequest(r *lib.Rand, cur uint64) genReq {
 			Run: func(n *node) bool {
 				c, cancel := context.WithCancel(ctx)
 				go func() { time.Sleep(15 * time.Millisecond); cancel() }()
-				return n.bs.Watch(&proto.WatchRequest{Key: k, End: e, Revision: ru}, &brainWatchStream{fakeStream: fakeStream{c}, failAt: fail}) != nil
+				err := n.bs.Watch(&proto.WatchRequest{Key: k, End: e, Revision: ru}, &brainWatchStream{fakeStream: fakeStream{c}, failAt: fail})
+				time.Sleep(5 * time.Millisecond) // the watch's closing emission runs in its own goroutine
+				return err != nil
 			}}
 	case 10:
 		co := r.Chance(1, 4)
@@ -587,7 +628,9 @@ func genRequest(r *lib.Rand, cur uint64) genReq {
 				ws.in <- &etcdserverpb.WatchRequest{RequestUnion: &etcdserverpb.WatchRequest_CancelRequest{CancelRequest: &etcdserverpb.WatchCancelRequest{WatchId: cancelID}}}
 				ws.in <- &etcdserverpb.WatchRequest{} // unsupported
 				go func() { time.Sleep(15 * time.Millisecond); close(ws.in) }()
-				return n.es.Watch(ws) != nil
+				err := n.es.Watch(ws)
+				time.Sleep(5 * time.Millisecond)
+				return err != nil
 			}}
 	}
 }
@@ -638,6 +681,36 @@ func corpus(cur uint64) []genReq {
 				time.Sleep(30 * time.Millisecond)
 				return err != nil
 			}})
+	}
+	// seed C20-3: watch prefixes that are valid UTF-8, longer than 128 / 256 bytes, with a rune straddling the
+	// offset at every alignment; the watch is ended so that the prefix-labelled counter is emitted
+	for _, rs := range multiByteRunes {
+		for _, cut := range []int{128, 256} {
+			for lead := 1; lead < len(rs); lead++ {
+				k := longKey("/registry/configmaps/", rs, cut, lead, cut+40)
+				out = append(out, genReq{Kind: "corpus.brain.Watch.longutf8", Coq: lib.App("BWatch", lib.Bytes(k), "0"),
+					JSON: js("api", "brain.Watch", "key", k, "key_bytes", len(k), "rune_straddles_offset", cut, "corpus", "seed C20-3"),
+					Run: func(n *node) bool {
+						c, cancel := context.WithCancel(ctx)
+						go func() { time.Sleep(15 * time.Millisecond); cancel() }()
+						err := n.bs.Watch(&proto.WatchRequest{Key: k}, &brainWatchStream{fakeStream: fakeStream{c}})
+						time.Sleep(30 * time.Millisecond)
+						return err != nil
+					}})
+				out = append(out, genReq{Kind: "corpus.etcd.Watch.longutf8", Coq: lib.App("EWatch", lib.Bytes(k), "0%Z"),
+					JSON: js("api", "etcd.Watch", "key", k, "key_bytes", len(k), "rune_straddles_offset", cut, "corpus", "seed C20-3"),
+					Run: func(n *node) bool {
+						c, cancel := context.WithCancel(ctx)
+						defer cancel()
+						ws := &etcdWatchStream{fakeStream: fakeStream{c}, in: make(chan *etcdserverpb.WatchRequest, 4)}
+						ws.in <- &etcdserverpb.WatchRequest{RequestUnion: &etcdserverpb.WatchRequest_CreateRequest{CreateRequest: &etcdserverpb.WatchCreateRequest{Key: k}}}
+						go func() { time.Sleep(15 * time.Millisecond); close(ws.in) }()
+						err := n.es.Watch(ws)
+						time.Sleep(30 * time.Millisecond)
+						return err != nil
+					}})
+			}
+		}
 	}
 	// limits that must never be used as an allocation size: MaxInt64-1 and 1<<62 (makeslice: cap out of range
 	// if they were), 1<<33 / 1<<40 (giga- to terabytes if they were); MaxInt64 itself overflows to "unlimited"
@@ -1028,6 +1101,9 @@ func emissionsOfRow(r tableRow) []Emission {
 		if len(l.Consts) > n {
 			n = len(l.Consts)
 		}
+		if (l.Class == "VSanitised" || l.Class == "VServer") && n < 6 {
+			n = 6
+		}
 	}
 	var out []Emission
 	for i := 0; i < n; i++ {
@@ -1040,9 +1116,10 @@ func emissionsOfRow(r tableRow) []Emission {
 			case "VFmt":
 				v = []byte([]string{"true", "false", "12"}[i%3])
 			case "VSanitised":
-				v = []byte("/registry/?x")
+				// what ToValidUTF8 lets through: long, valid, a rune across byte 128 (and 256 for the second variant)
+				v = longKey("/registry/?", multiByteRunes[i%3], []int{128, 256}[i%2], 1, 300)
 			case "VServer":
-				v = []byte("10.0.0.1:3379")
+				v = longKey("node-", multiByteRunes[(i+1)%3], 128, 1, 200)
 			case "VRaw":
 				v = []byte("/\xff") // what a client can send
 			default:
@@ -1057,7 +1134,7 @@ func emissionsOfRow(r tableRow) []Emission {
 
 var seqNames = []string{"a.b", "a_b", "a.c", "x", "go.goroutines", "9bad", "ok:1", "bad-name", "", "a.b.c", "é"}
 var seqLabelNames = []string{"m", "n", "cluster", "le", "__r", "1x", "", "m", "n"}
-var seqValues = []string{"v", "\xff", "é", "\xc3", "", "w", "a\xe2\x82", "\xed\xa0\x80", "\xf4\x90\x80\x80", "\xf0\x9f\x98\x80"}
+var seqValues = []string{string(longKey("/k/", "键", 128, 1, 180)), string(longKey("/k/", "😀", 128, 2, 140)), string(longKey("", "é", 256, 1, 300)), strings.Repeat("x", 300), "v", "\xff", "é", "\xc3", "", "w", "a\xe2\x82", "\xed\xa0\x80", "\xf4\x90\x80\x80", "\xf0\x9f\x98\x80"}
 var seqGlobals = [][][2][]byte{
 	nil,
 	{{[]byte("cluster"), []byte("c")}},
@@ -1140,6 +1217,10 @@ func main() {
 		} `json:"globals"`
 		GlobalsKnown bool       `json:"globals_known"`
 		Rows         []tableRow `json:"rows"`
+		WrapperPath  struct {
+			Identity bool     `json:"identity"`
+			Notes    []string `json:"notes"`
+		} `json:"wrapper_path"`
 	}
 	tb, err := os.ReadFile(filepath.Join(vdir, "build", "gen", "metrics_table.json"))
 	if err != nil {
@@ -1147,6 +1228,10 @@ func main() {
 	} else if err := json.Unmarshal(tb, &table); err != nil {
 		w.Fail(lib.ImplFailure{CaseID: -1, What: "metric table unreadable: " + err.Error()})
 	} else {
+		pathNote := strings.Join(table.WrapperPath.Notes, "; ")
+		w.Add(lib.Case{Kind: "wrapper-path", Coq: lib.App("KPath", lib.Bool(table.WrapperPath.Identity)),
+			JSON:     map[string]interface{}{"what": "structural check that Emit*/labelsToMap/extractLabelNames hand label names and values to client_golang unchanged", "identity": table.WrapperPath.Identity, "deviations": pathNote},
+			Outcomes: []string{fmt.Sprintf("wrapper-path-identity-%v", table.WrapperPath.Identity)}})
 		var globals [][2][]byte
 		for _, g := range table.Globals {
 			globals = append(globals, [2][]byte{[]byte(g.Name), []byte("verif")})
